@@ -613,7 +613,7 @@ impl<const N: usize> ScenN<N> {
                 let _ = h.await;
             }
         };
-        let budget = if clients > 500 { 40 } else { 90 };
+        let budget = if clients > 500 { 40 } else { 30 };
         let finished = self.rt.block_on(async { tokio::time::timeout(Duration::from_secs(budget), run).await.is_ok() });
         if !finished {
             self.dead = Some("StepTimeout".into());
